@@ -102,8 +102,19 @@ func (e *BaseParserError) FriendlyErrorMessage() string {
 		msg.WriteString(fmt.Sprintf("location: %s", friendlyLoc))
 	}
 	msg.WriteString("\n" + e.SourceCode() + "\n")
-	pad := strings.Repeat(" ", colStart-1)
-	msg.WriteString(pad + strings.Repeat("^", colEnd-colStart+1))
+	// The error may end on a later line than it starts on (a multi-line string
+	// for example), in which case the end column says nothing about the width
+	// of the marker on the first line.
+	padWidth := colStart - 1
+	if padWidth < 0 {
+		padWidth = 0
+	}
+	markWidth := colEnd - colStart + 1
+	if markWidth < 1 {
+		markWidth = 1
+	}
+	pad := strings.Repeat(" ", padWidth)
+	msg.WriteString(pad + strings.Repeat("^", markWidth))
 	return msg.String()
 }
 
